@@ -1442,3 +1442,65 @@ Corollary plan_of_correct_ok sch d q en rows rows' :
   db_arity_ok sch d = true -> joins_wf sch q = true ->
   eval_query d en q = Ok rows -> eval_lplan d en (plan_of q) = Ok rows' -> rows' = rows.
 Proof. intros Hd Hq Hs Hp. exact (plan_of_agree sch d Hd q Hq en rows' rows Hp Hs). Qed.
+
+
+(* ---------------------------------------------------------------- full strength is refuted; examples *)
+
+(* t0 (1 column) is empty, t1 holds i32::MAX:
+     SELECT x1.c0 FROM t0 x1 INNER JOIN t1 x2 ON x1.c0 = x2.c0 AND x2.c0 + 1 > 0
+   the reference semantics evaluates ON for no pair and answers no row; the planner moves the right-only
+   conjunct into a Filter over t1, which overflows *)
+Definition ex_refute_db : db := [[]; [[VInt 2147483647]]].
+Definition ex_refute_q : query :=
+  QSelect (Some (FJoin JInner (FQuery (QTable 0)) (FQuery (QTable 1))
+                   (Some (EAnd (ECmp CEq (ECol 0 0) (ECol 0 1))
+                               (ECmp CGt (EArith Add 32 (ECol 0 1) (EConst (VInt 1))) (EConst (VInt 0))))) 1 1))
+          None None None [ECol 0 0] false.
+
+Theorem plan_of_exact_refuted :
+  exists d q, db_arity_ok [1; 1] d = true /\ joins_wf [1; 1] q = true /\
+              eval_query d [] q = Ok [] /\ eval_lplan d [] (plan_of q) = Err EOverflow.
+Proof. exists ex_refute_db, ex_refute_q. repeat split; vm_compute; reflexivity. Qed.
+
+(* a join + group + order + limit query and a correlated subquery in WHERE over a small database *)
+Definition ex_db : db :=
+  [ [[VInt 1; VInt 10]; [VInt 2; VInt 20]; [VInt 2; VInt 5]; [VNull; VInt 7]];
+    [[VInt 1; VStr [97%N]]; [VInt 2; VStr [98%N]]; [VInt 3; VStr [99%N]]] ].
+Definition ex_sch : list nat := [2; 2].
+
+(* SELECT t0.c0, sum(t0.c1) FROM t0 JOIN t1 ON t0.c0 = t1.c0 AND t1.c0 > 0 WHERE t0.c1 > 1 GROUP BY t0.c0
+   ORDER BY 1 DESC LIMIT 5 OFFSET 0 *)
+Definition ex_q1 : query :=
+  QOrderLimit
+    (QSelect (Some (FJoin JInner (FQuery (QTable 0)) (FQuery (QTable 1))
+                      (Some (EAnd (ECmp CEq (ECol 0 0) (ECol 0 2)) (ECmp CGt (ECol 0 2) (EConst (VInt 0))))) 2 2))
+             (Some (ECmp CGt (ECol 0 1) (EConst (VInt 1))))
+             (Some ([ECol 0 0], [(ASum, false, ECol 0 1)]))
+             None [ECol 0 0; ECol 0 1] false)
+    [(0, true, true)] (Some 5) 0.
+
+(* SELECT t0.c1 FROM t0 WHERE EXISTS (SELECT 1 FROM t1 WHERE t1.c0 = t0.c0) *)
+Definition ex_q2 : query :=
+  QSelect (Some (FQuery (QTable 0)))
+          (Some (EExists false (QSelect (Some (FQuery (QTable 1)))
+                                        (Some (ECmp CEq (ECol 0 0) (ECol 1 0))) None None [EConst (VInt 1)] false)))
+          None None [ECol 0 1] false.
+
+Example ex_q1_hyps :
+  db_arity_ok ex_sch ex_db = true /\ joins_wf ex_sch ex_q1 = true /\
+  eval_query ex_db [] ex_q1 = Ok [[VInt 2; VInt 25]; [VInt 1; VInt 10]] /\
+  eval_lplan ex_db [] (plan_of ex_q1) = Ok [[VInt 2; VInt 25]; [VInt 1; VInt 10]] /\
+  plan_of ex_q1 =
+    LLimit (Some 5) 0 (LOrder [(0, true, true)]
+      (LProject [PCol 0 0; PCol 0 1]
+        (LAggregate [PCol 0 0] [(ASum, false, PCol 0 1)]
+          (LFilter (PCmp CGt (PCol 0 1) (PConst (VInt 1)))
+            (LComparisonJoin JInner [(JOp CEq, PCol 0 0, PCol 0 0)] 2 2 (LScan 0)
+               (LFilter (PCmp CGt (PCol 0 0) (PConst (VInt 0))) (LScan 1))))))).
+Proof. repeat split; vm_compute; reflexivity. Qed.
+
+Example ex_q2_hyps :
+  db_arity_ok ex_sch ex_db = true /\ joins_wf ex_sch ex_q2 = true /\
+  eval_query ex_db [] ex_q2 = Ok [[VInt 10]; [VInt 20]; [VInt 5]] /\
+  eval_lplan ex_db [] (plan_of ex_q2) = Ok [[VInt 10]; [VInt 20]; [VInt 5]].
+Proof. repeat split; vm_compute; reflexivity. Qed.
